@@ -22,6 +22,36 @@ TOKENS = ["a", "b", "1", "0.5", '"s"', "`t`", "`${", "}`", "(", ")", "[", "]", "
           "if", "else", "for", "while", "of", "in", "new", "typeof", "as", "async", "await", "yield", "import", "export", "from", "interface", "type", "enum", "extends", "/re/g", "//c\n", "/*", "*/", "#p", "@d", "\\u0041", "é", "\U0001d4b3"]
 
 
+# one line per lexical / syntactic construct: every character prefix of every line is offered (truncated escapes, unterminated
+# strings / templates / comments / regexps / declaration bodies), also followed by a multi-byte character, and with one character deleted
+CORPUS = [
+ 'let s = "a\\x41\\u0042\\u{1F600}\\n\\0\\\\";', "let t = 'q\\x7e\\u00e9\\u{61}';", 'let u = `a${b}\\x41${`n${c}\\u0041`}z`;', 'let \\u0061b\\u{63} = 1;',
+ 'let r = /a[\\]/]\\/(?<n>x)+/giu.test("x");', 'let n = [0x1F, 0b101, 0o17, 1_000, 1e-7, .5e+3, 12n, 0.0];', 'a /* c1 */ + // c2\n b;', 'label: for (const [k, v] of Object.entries(o)) { if (k) continue label; else break; }',
+ 'declare namespace N { foo; export function f(): void; const z: number }', 'declare module "m" { export { a, b }; export default class {} }', 'declare global { interface Window { x: number } }',
+ 'interface I<T extends object = {}> extends J, K { readonly [key: string]: T; m?(x: number): void; new (x: T): I<T> }', 'type U<T> = T extends (infer R)[] ? R : { [K in keyof T]?: T[K] } | `a${string}`;',
+ 'abstract class A<T> extends B<T> implements C { private static readonly x?: number = 1; abstract m(): void; get g() { return 1 } set g(v) {} #p = 2; static { init(); } }',
+ 'enum E { A = 1 << 2, B, C = "s".length }', 'const enum CE { X }', 'namespace A.B.C { export const d = 1 }', 'function f<T>(this: Window, a?: number, ...r: T[]): asserts a is number { return }',
+ 'function over(a: string): void; function over(a: number): void; function over(a: any) {}', 'export default async function* ag() { for await (const x of y) yield* x; }',
+ 'import d, { a as b, type T } from "./m"; import * as ns from "n"; export * from "q"; export { b as default };', 'const { a = 1, b: { c, ...d }, ["k" + 1]: e } = o, [x, , y = 2, ...z] = arr;',
+ 'x = a ? b : c ? d : e ?? f?.g?.[h]?.(i) ** -j;', 'y = <T>(x: T) => x; z = <any>w; v = w as unknown as T satisfies U; q = p!;', '@dec() class D { @prop() x = 1; constructor(@inject() private readonly y: Y) {} }',
+ 'try { throw new Error("e") } catch { } finally { }', 'switch (x) { case 1: case 2: break; default: { } }', 'do x++; while (x < 10) if (a) b; else if (c) d; else e;', 'o = { a, b() {}, get c() { return 1 }, [d]: 2, ...e, "f": 3, 4: 5, async *g() {} };',
+ 'new.target; import.meta.url; super.m(); new Foo;', 'f<T>(g<U>(h<V>(1)));', 'a < b > (c);', 'let v: Array<Array<Array<number>>> = [];', 'x = y <<= 2 >>> 1 >> 0;', 'for (var i = 0, j = 10; i < j; i++, j--) ;', 'if (a) function g() {}',
+ 'let 日本 = "語"; let 𝒳 = `€${日本}€`;', 'var yield_, await_, let_, of, async;', 'a = b\n++c; d = e\n/f/g; return\nx;', 'class C { static async *[Symbol.iterator]() {} "quoted"() {} 42() {} }',
+]
+
+
+def poison_variants(src):
+    """a valid nesting made invalid at its deepest point or cut off before it closes: rejected inputs obey the same budget"""
+    out = []
+    i = src.find("1;") if "1;" in src else -1
+    k = src.rfind("1")
+    if k > 0:
+        out.append(src[:k] + "1 +" + src[k + 1:])          # syntax error at the innermost expression
+        out.append(src[:k + 1])                             # everything after the innermost expression is missing
+        out.append(src[:k] + "g(")                          # ... and the innermost expression itself is an open call
+    return out
+
+
 def instantiate(fam, depth):
     e = "1"
     for i in range(depth):
@@ -50,14 +80,18 @@ def main(tier):
     for d in depths:
         batch = []
         for f in fams:
-            if alive[f]: batch.append((f, d, instantiate(f, d)))
+            if alive[f]:
+                src = instantiate(f, d)
+                batch.append((f, d, src))
+                if d <= 64:
+                    for pv in poison_variants(src): batch.append((f + ("poisoned",), d, pv))
         jobs = [{"id": i, "source": s} for i, (f, d_, s) in enumerate(batch)]
         got = M.run_jobs(exe, "parsework", jobs, timeout=1200) if jobs else {}
         for i, (f, d_, s) in enumerate(batch):
             r = got.get(i, {"status": "CRASH"})
             st = r.get("status", "CRASH"); st = "crash" if st.startswith("CRASH") else "hang" if st == "HANG" else st
             inputs.append({"cls": "family", "family": list(f), "depth": d_, "len": len(s), "work": r.get("work", 0), "status": st, "source": s if len(s) < 400 else s[:200] + " ... " + s[-100:]})
-            if st != "ok" or r.get("work", 0) > 3000000 or len(s) > 120000: alive[f] = False
+            if f in alive and (st != "ok" or r.get("work", 0) > 3000000 or len(s) > 120000): alive[f] = False
     log("nesting families: %d families x doubling depths, %d measurements" % (len(fams), len(inputs)))
     # ---- short token strings (exhaustive) and token soups
     toks = TOKENS
@@ -65,6 +99,12 @@ def main(tier):
     if not quick: soups += [" ".join(p) for p in itertools.product(toks[:45], repeat=3)]
     for _ in range(1500 if quick else 30000):
         soups.append(" ".join(rnd.choice(toks) for _ in range(rnd.randint(3, 200))))
+    # ---- the construct corpus: every character prefix, prefix + multi-byte character, single-character deletions
+    for line in CORPUS:
+        for cut in range(len(line) + 1):
+            soups.append(line[:cut]); soups.append(line[:cut] + "\u20ac"); soups.append(line[:cut] + "\U0001d4b3x")
+        for k in range(len(line)):
+            soups.append(line[:k] + line[k + 1:])
     # ---- prefixes and single-token mutations of valid programs
     progs = mjcheck.gen_programs(c.seed * 3 + 1, 25 if quick else 200, objects=True, gens=True)
     import re
